@@ -75,7 +75,7 @@ def configs(tier, seed):
     # other ways a handler gets at the body: through request.copy(), lazily from the generator it returns, not at all
     for n in ((1, 3, 5) if tier == 'quick' else range(0, 8)):
         for M in ([2, 4] if tier == 'quick' else [1, 2, 4, 7]):
-            for mode in ('copy', 'lazy', 'ignore', 'peekcopy'):
+            for mode in ('copy', 'lazy', 'ignore', 'peekcopy', 'retype'):
                 out.append(('wsgi-' + mode, n, M, True, None))
     # multipart content type: the body is parsed while it is buffered; it must still arrive byte-exact
     for fam in ((-1,) if tier == 'quick' else (-1, -2)):
@@ -178,6 +178,13 @@ def run_wsgi(om, ex, n, CL, M, mode='echo'):
         if mode == 'peekcopy':
             seen['peek'] = app.request.body.read(1)
             seen['content'] = app.request.copy().body.read()      # a copy taken after the original was partly read
+            seen['again'] = app.request.body.read()
+            return seen['content']
+        if mode == 'retype':
+            seen['peek'] = app.request.body.read(2)               # the handler sniffs the body, re-labels the request ...
+            app.request['CONTENT_TYPE'] = 'application/x-sniffed'
+            seen['content'] = app.request.body.read()             # ... and reads it: still the whole body
+            app.request['CONTENT_TYPE'] = 'text/plain'
             seen['again'] = app.request.body.read()
             return seen['content']
         seen['content'] = app.request.body.read()
@@ -381,7 +388,8 @@ def replay(case):
         return None
     answers = [k for _, k in obs['calls']]
     how = {'wsgi-copy': ' (handler reads request.copy().body)', 'wsgi-lazy': ' (handler returns a generator that reads request.body after its first chunk)',
-           'wsgi-ignore': ' (handler does not look at the body)', 'wsgi-peekcopy': ' (handler reads 1 byte of request.body, then request.copy().body)'}.get(case['kind'], '')
+           'wsgi-ignore': ' (handler does not look at the body)', 'wsgi-peekcopy': ' (handler reads 1 byte of request.body, then request.copy().body)',
+           'wsgi-retype': ' (handler reads 2 bytes of request.body, assigns request["CONTENT_TYPE"], reads request.body)'}.get(case['kind'], '')
     how += f' [{method_for(n, M, case["kind"] != "comp")} request]'
     return (f'{case["kind"]}{how}: data={data_of(n)!r} Content-Length={CL} max_memfile_size={M}; stream answered the '
             f'reads {[r for r, _ in obs["calls"]]} with {answers} bytes: {v[1]}')
